@@ -117,8 +117,24 @@ def check(ctx: Ctx) -> None:
                     closed_sets[tgt.id] = ts
         ob.note(f"statically evaluated type sets: { {k: sorted(v) for k, v in closed_sets.items()} }")
         if not lookups:
-            # a literal table is closed by construction
-            ob.site(f_save, f_save.node, "no name-keyed lookup in _save")
+            # a literal {type: save method} table is closed by construction: its keys must be the serialisable grammar,
+            # each mapped to the save method of that very type
+            tables = [(tgt_, st_.value) for st_ in ser.node.body for tgt_ in [st_.targets[0] if isinstance(st_, ast.Assign) else (st_.target if isinstance(st_, ast.AnnAssign) else None)]
+                      if isinstance(tgt_, ast.Name) and isinstance(getattr(st_, "value", None), ast.Dict) and st_.value.keys
+                      and any(isinstance(x, ast.Attribute) and x.attr == tgt_.id for x in repo.own_nodes(f_save))]
+            ob.site(f_save, f_save.node, "no name-keyed lookup in _save", literal_tables=[t.id for t, _v in tables])
+            if not tables:
+                ob.violation(f_save, f_save.node, "the type dispatch of _save consults neither a fenced name lookup nor a literal table of the serialisable types",
+                             construct="no closed dispatch")
+            for tgt_, d in tables:
+                ts = static_type_set(repo, ser, d)
+                if ts is None or ts != ACCEPTED:
+                    ob.violation(gb, d, f"the literal dispatch table {tgt_.id} does not list exactly the serialisable grammar: extra={sorted((ts or set()) - ACCEPTED)} missing={sorted(ACCEPTED - (ts or set()))}",
+                                 construct=f"type set {sorted(ts) if ts else None}")
+                for k, v in zip(d.keys, d.values):
+                    kn = "NoneType" if unparse(k) == "type(None)" else unparse(k)
+                    if unparse(v) != f"save_{kn}":
+                        ob.violation(gb, v, f"the dispatch table maps {kn} to {unparse(v)} instead of save_{kn}: the value is written in another type's encoding")
         for lk in lookups:
             fenced = None
             for nd in cfg.node_containing(lk):
@@ -271,7 +287,7 @@ def check(ctx: Ctx) -> None:
             for x in repo.own_nodes(m):
                 if isinstance(x, ast.Assign) and m.name != "__init__" and any(unparse(t) == "self._write" for t in x.targets):
                     ob.violation(m, x, "the serializer's sink is re-bound while saving: bytes can be re-ordered or replayed")
-        ob.require(n >= 2, f"{n} serializer table accesses (floor 2: the type-keyed dispatch cache)")
+        ob.require(n >= 1, f"{n} serializer table accesses (floor 1: the type-keyed dispatch table)")
 
     # ---- C01.h dump-before-send
     with ctx.obligation("C01.h", "dump-before-send") as ob:
